@@ -441,3 +441,43 @@ _run_c17b = run
 def run(ctx, R):
     _run_c17b(ctx, R)
     r177(ctx, R)
+
+
+def r178(ctx, R):
+    """ensure_consumer tells its caller "I created this consumer" by
+    returning: the caller's clean-up can only remove what it was told about.
+    So after the call that creates (and commits) the consumer nothing in
+    ensure_consumer goes to the database again - a fault there escapes with
+    the record stored and nobody knowing."""
+    E = ctx.effects
+    f = ctx.prog.func('placement.handlers.util:ensure_consumer')
+    CREATE = 'placement.handlers.util:_create_consumer'
+    g = cfgmod.cfg_of(f)
+    acc = []
+    for s in ctx.cg.calls_in(f):
+        ops = set()
+        for c in s.callees:
+            ops |= {op for op, _t in E.summary(c)}
+        if ops:
+            acc.append((C.stmt_of(s.node), s))
+    creates = [(st, s) for st, s in acc
+               if any(c.qbase == CREATE for c in s.callees)]
+    bad = []
+    for wst, w in creates:
+        reach = g.reachable_from(list(g.succ.get(wst, ())), normal_only=True)
+        bad.extend((st, s) for st, s in acc if st is not wst and st in reach)
+    R.ob('R17.8', 'ensure_consumer:nothing-after-create',
+         len(creates) >= 1 and not bad,
+         'after the consumer was created nothing in ensure_consumer reaches '
+         'the database before it returns', ['line %d %s' % (
+             st.lineno, src(s.node.func)) for st, s in bad] or
+         '%d create call(s)' % len(creates), func=f)
+    R.count('R17.8', len(creates), 1)
+
+
+_run_c17c = run
+
+
+def run(ctx, R):
+    _run_c17c(ctx, R)
+    r178(ctx, R)
